@@ -333,6 +333,14 @@ func runC10(col *Collector, tier string, seed int64) {
 	for _, sh := range []int{1, 2} {
 		as = append(as, argSpec{pre: []string{"echoargs"}, post: []string{"a", "b"}, form: "root", shadow: sh}, argSpec{pre: []string{"echoargs"}, post: nil, form: "run", shadow: sh})
 	}
+	// words that mean something BEFORE the `--` (keywords of `run`, names of sub-commands) are plain words after it
+	for ki, kw := range []string{"pipeline", "task", "run", "watch", "list"} {
+		for fi, form := range []string{"root", "run", "run task"} {
+			as = append(as, argSpec{pre: []string{"echoargs"}, post: []string{kw}, form: form},
+				argSpec{pre: []string{"echoargs"}, post: []string{"first", kw, "second"}, form: form, shadow: []int{0, 1, 2}[(ki+fi)%3]},
+				argSpec{pre: []string{"echoargs"}, post: []string{kw, "--", kw}, form: form})
+		}
+	}
 	type ud struct {
 		n, pos int
 		allow  bool
